@@ -146,6 +146,7 @@ structure Variant where
   expiryNow : Bool
   dtlsrFail : Bool
   holdFix : Bool
+  gateDirect : Bool
 
 def parseHist (v : Variant) (line : String) : Option Hist := do
   let fs := fields line
@@ -175,7 +176,7 @@ def parseHist (v : Variant) (line : String) : Option Hist := do
   let evS ← kv fs "ev"
   let cfg : Cfg := { self := self, algo := algo, mule := mule, sensorNodes := sensors, sprayL := l,
                      bcast := ⟨999, 0⟩, seqFirst := v.seqFirst, skipStored := v.skipStored, expiryNow := v.expiryNow,
-                     dtlsrFail := v.dtlsrFail, holdFix := v.holdFix }
+                     dtlsrFail := v.dtlsrFail, holdFix := v.holdFix, gateDirect := v.gateDirect }
   let mut obs : List Obs := []
   let mut panicAt : Option Nat := none
   let mut i := 0
